@@ -67,6 +67,24 @@ def snaky_cases(draw, tier):
     from harness.props.c03 import shift_z
     for name in ("a", "b"):
         base = shift_z(base, name, draw(st.integers(-1, 1)))
+    # a wire cut by an effect directly above a state at the same offset (the
+    # pair can be exchanged either way round), kept only when the diagram
+    # stays connected through its other wires
+    if draw(st.integers(0, 2)) == 0:
+        sc = specs.scans(base)
+        i = draw(st.integers(0, len(base["layers"])))
+        if sc[i]:
+            p = draw(st.integers(0, len(sc[i]) - 1))
+            t = sc[i][p]
+            cut = [list(l) for l in base["layers"]]
+            cut[i:i] = [
+                [{"k": "box", "name": "e", "dom": [t], "cod": [],
+                  "dag": False}, p],
+                [{"k": "box", "name": "s", "dom": [], "cod": [t],
+                  "dag": False}, p]]
+            cut = dict(base, layers=cut)
+            if specs.connected(len(cut["dom"]), spec_ars(cut)):
+                base = cut
     spec = base
     n_snakes = draw(st.integers(1, 3 if big else 2))
     inserted = []
